@@ -126,6 +126,23 @@ def _gensym():
     return f"_ptera__{next(_IDX)}"
 
 
+def _find_declarations(stmts):
+    """Find the global/nonlocal declarations of a function, at any depth."""
+    found = []
+    for stmt in stmts:
+        if isinstance(stmt, (ast.Global, ast.Nonlocal)):
+            found.append(stmt)
+        elif isinstance(
+            stmt, (ast.FunctionDef, ast.AsyncFunctionDef, ast.ClassDef)
+        ):
+            # These have their own declarations
+            continue
+        else:
+            for field in ("body", "orelse", "finalbody", "handlers", "cases"):
+                found.extend(_find_declarations(getattr(stmt, field, [])))
+    return found
+
+
 def _forget(node, *syms):
     """Delete temporary variables, so that they do not keep objects alive."""
     return ast.copy_location(
@@ -651,11 +668,9 @@ class PteraTransformer(NodeTransformer):
 
         # global/nonlocal declarations must come before any use of the names
         # (the closure variables are read on entry): hoist them
-        declarations = [
-            stmt
-            for stmt in node.body
-            if isinstance(stmt, (ast.Global, ast.Nonlocal))
-        ]
+        # (those that are in nested blocks as well: visit_Global replaces
+        # them by a pass statement where they were)
+        declarations = _find_declarations(node.body)
         wrapped_body.extend(declarations)
         stmts = [stmt for stmt in node.body if stmt not in declarations]
         if not stmts or not isinstance(stmts[-1], (ast.Return, ast.Raise)):
@@ -707,6 +722,12 @@ class PteraTransformer(NodeTransformer):
         # variables of a class body are not variables of this function
         # (and __ptera_* names would be mangled inside a class body).
         return node
+
+    def visit_Global(self, node):
+        # The declaration was hoisted to the top of the function
+        return ast.copy_location(ast.Pass(), node)
+
+    visit_Nonlocal = visit_Global
 
     def visit_AsyncFunctionDef(self, node):
         # A nested coroutine is left alone, like any nested function
